@@ -133,6 +133,10 @@ func streamC23(h *H) {
 				f.Paths = []string{"/a"}
 			}
 		}
+		if h.Intn(5) == 0 { // an option given twice
+			f.Hosts = h.c24Repeat(f.Hosts)
+			f.Paths = h.c24Repeat(f.Paths)
+		}
 		gb := data.SnapshotGroupByOptions{Host: true, Path: true}
 		gbSet := false
 		if h.Intn(2) == 0 {
